@@ -44,7 +44,7 @@ def check_stress(rep, params, line):
     rep.nontrivial(tuple(params))
 
 
-def run(rep, tier, seed, replay):
+def _run(rep, tier, seed, replay):
     rep.cov["trusted_base"] = TRUSTED
     rnd = random.Random(seed)
     depth = 4 if tier == "quick" else 6
@@ -141,3 +141,9 @@ def run(rep, tier, seed, replay):
     rep.extra["race_detector"] = binary == "hx_race"
     rep.sample(dict(case=cases[len(cases) // 2], impl=impl[len(cases) // 2]))
     rep.sample(dict(stress=stress[0], delivered=sout[0][:300]))
+
+
+def run(rep, tier, seed, replay):
+    _run(rep, tier, seed, replay)
+    if not replay:
+        genproof.clock_obligation(rep, "C16_clock.v", "the event queue asks the clock for something other than its flush ticker, the only form of time in the queue model", ('pkg/event.',))
